@@ -158,3 +158,18 @@ impl Rng {
         self.next() % n
     }
 }
+
+/// property label for mismatches (a family can serve several properties): HX_PROP or the default
+pub fn prop_name(default: &str) -> String {
+    std::env::var("HX_PROP").unwrap_or_else(|_| default.to_string())
+}
+/// HX_KINDS = comma list of `kind` or `kind:op-prefix` selectors restricting which cases are replayed
+pub fn kind_enabled(kind: &str, op: &str) -> bool {
+    match std::env::var("HX_KINDS") {
+        Err(_) => true,
+        Ok(l) => l.split(',').any(|sel| match sel.split_once(':') {
+            Some((k, o)) => k == kind && op.starts_with(o),
+            None => sel == kind,
+        }),
+    }
+}
